@@ -622,7 +622,9 @@ def ad_sig(v):
         inlen = d.get("inlen", 0)
         if st.get("kind") in LIMIT_KINDS and any(o > inlen > n >= 1 for o in ps for n in fn):
             cause = "limit-decrease-from-beyond-length"
-        elif "Truncate" in d.get("inkinds", []) and "Truncate" in d.get("outkinds", []):
+        elif str(st.get("kind", "")).startswith("sort") and "Truncate" in d.get("outkinds", []):
+            # a sort stage never produces a Truncate of its own: one in its output is a forwarded source Truncate
+            # (the stage below may be untapped, so its output cannot be inspected)
             cause = "truncate-forwarded"
         elif "Reset" in d.get("inkinds", []):
             cause = "reset-input"
